@@ -110,4 +110,26 @@ def expectedA : WOp → List RVal
   | .array t vs => [.vals t (vs.map (norm t))]
   | op => expected op
 
+/-- the number of bytes an item occupies in the stream — the same in every byte order -/
+def itemSize : WOp → Nat
+  | .setEndian _ => 0
+  | .scalar t _ => sizeofT t
+  | .array t vs => vs.length * sizeofT t
+  | .bytes bs => bs.length
+  | .cstr bs => (bs.takeWhile (· != 0)).length
+  | .carray t vs => vs.length * sizeofT t
+  | .strArray ss => (ss.flatMap id).length
+
+/-- reading a history back with some items skipped: item `i` is read with its own type when `sk[i] = false` and
+    stepped over with `skip(size of the item)` when `sk[i] = true` (byte-order switches are always made) -/
+def mirrorS : WOp × Bool → List ROp
+  | (.setEndian e, _) => [.setEndian e]
+  | (op, true) => [.skip (itemSize op)]
+  | (op, false) => mirror op
+
+def expectedS : WOp × Bool → List RVal
+  | (.setEndian _, _) => [.none]
+  | (_, true) => [.none]
+  | (op, false) => expected op
+
 end C16
